@@ -54,7 +54,7 @@ func (tr trial) String() string {
 }
 
 var opNames = []string{"Noop", "Status", "Fetch", "Search", "UIDSearch", "AppendSync", "AppendNonSync", "List", "Capability", "Caps", "State", "Mailbox", "Enable", "Store", "Idle", "Login",
-	"Noop", "Status", "Fetch", "BigFetchCollect", "BigFetchLag", "BigFetchLag", "LoginLit", "Search2", "Logout", "FetchBigLiteral", "FetchBigLiteral", "Mailbox", "Noop", "AppendCloseTwice", "AppendCloseTwice"}
+	"Noop", "Status", "Fetch", "BigFetchCollect", "BigFetchLag", "BigFetchLag", "LoginLit", "Search2", "Logout", "FetchBigLiteral", "FetchBigLiteral", "Mailbox", "Noop", "AppendCloseTwice", "AppendCloseTwice", "ListLagCut", "NoopLate", "NoopLate"}
 
 const bigN = 300
 
@@ -67,6 +67,7 @@ type server struct {
 	responses int
 	logins    int
 	stores    int
+	cutNow    bool
 	refused   int
 	inflight  *int64
 	atDisrupt int64
@@ -105,6 +106,18 @@ func (sv *server) reply(cmd *script.Command) string {
 	case "STATUS":
 		return "* STATUS box (MESSAGES 3)\r\n" + tag + " OK done\r\n"
 	case "LIST":
+		if bytes.Contains(cmd.Raw, []byte("cut")) {
+			// more mailboxes (each with its STATUS) than the client buffers,
+			// then the connection is cut instead of the tagged completion
+			var b strings.Builder
+			for i := 0; i < 70; i++ {
+				fmt.Fprintf(&b, "* LIST () \"/\" cut%d\r\n* STATUS cut%d (MESSAGES %d)\r\n", i, i, i)
+			}
+			sv.mu.Lock()
+			sv.cutNow = true
+			sv.mu.Unlock()
+			return b.String()
+		}
 		return "* LIST () \"/\" a\r\n* LIST () \"/\" b\r\n" + tag + " OK done\r\n"
 	case "LOGOUT":
 		return "* BYE logging out\r\n" + tag + " OK done\r\n"
@@ -256,6 +269,13 @@ func (sv *server) loop() {
 			}
 		} else {
 			s.Send(out)
+		}
+		sv.mu.Lock()
+		cut := sv.cutNow
+		sv.mu.Unlock()
+		if cut {
+			s.Close()
+			return
 		}
 		for i := len(held) - 1; i >= 0; i-- {
 			s.Send(held[i])
@@ -501,6 +521,23 @@ func runTrial(t fataler, tr trial) int64 {
 					})
 				case "List":
 					wait(who, op, func() error { _, err := c.List("", "*", nil).Collect(); return err })
+				case "ListLagCut":
+					// LIST ... RETURN (STATUS) whose consumer shows up late; the
+					// server cuts the connection after 70 mailboxes: the read
+					// goroutine finishes the command while its results are
+					// still waiting to be consumed
+					wait(who, op, func() error {
+						cmd := c.List("", "cut*", &imap.ListOptions{ReturnStatus: &imap.StatusOptions{NumMessages: true}})
+						time.Sleep(20 * time.Millisecond)
+						for cmd.Next() != nil {
+						}
+						return cmd.Close()
+					})
+				case "NoopLate":
+					// a command submitted a little later (e.g. while another
+					// goroutine's results are still being handed over)
+					time.Sleep(time.Duration(2+4*wi) * time.Millisecond)
+					wait(who, op, func() error { return c.Noop().Wait() })
 				case "Capability":
 					wait(who, op, func() error { _, err := c.Capability().Wait(); return err })
 				case "Enable":
@@ -658,6 +695,7 @@ func TestReplayScenarios(t *testing.T) {
 		// Client.Close while a body literal is being streamed to a caller
 		runTrial(t, trial{workers: [][]string{{"FetchBigLiteral"}, {"Noop", "Noop", "Noop"}}, dis: disruptor{kind: "client-close", after: 3 + i%2}})
 		// mailbox summary read by several goroutines while unilateral updates arrive
+		runTrial(t, trial{workers: [][]string{{"ListLagCut"}, {"NoopLate", "Noop"}, {"NoopLate"}, {"NoopLate", "State"}}, dis: disruptor{kind: "none"}})
 		runTrial(t, trial{workers: [][]string{{"Mailbox", "Mailbox", "Mailbox", "Mailbox"}, {"Noop", "Noop", "Noop"}, {"Mailbox", "Noop", "Mailbox"}}, dis: disruptor{kind: "none"}})
 		// a finished APPEND closed a second time while other goroutines are in the middle of theirs
 		runTrial(t, trial{workers: [][]string{{"AppendCloseTwice", "AppendCloseTwice"}, {"AppendSync", "AppendSync"}, {"Noop", "Search2", "Noop"}, {"AppendCloseTwice", "Idle"}}, dis: disruptor{kind: "none"}, noLitMinus: true})
